@@ -217,7 +217,7 @@ func verifFileShort(content string) *os.File { return verifFile(content) }
 func verifC11File(n, bufLen int) {
 	content := verifString("content", n, "a \n\r")
 	mem := &StringRuleList{ID: 3, RulesText: content}
-	fl := &FileRuleList{ID: 3, File: verifFileShort(content), buffer: make([]byte, bufLen)}
+	fl := verifNewFileList(3, verifFileShort(content), bufLen)
 	for idx := 0; idx <= n; idx++ {
 		r1, e1 := mem.RetrieveRule(idx)
 		r2, e2 := fl.RetrieveRule(idx)
@@ -240,7 +240,7 @@ func verifC11File(n, bufLen int) {
 func verifC11FileSeq(n, bufLen int) {
 	content := verifString("content", n, "a\n")
 	mem := &StringRuleList{ID: 3, RulesText: content}
-	fl := &FileRuleList{ID: 3, File: verifFile(content), buffer: make([]byte, bufLen)}
+	fl := verifNewFileList(3, verifFile(content), bufLen)
 	first := verifChoice("first", n+1)
 	second := verifChoice("second", n+1)
 	_, _ = fl.RetrieveRule(first)
@@ -260,7 +260,7 @@ func verifC11FileSeq(n, bufLen int) {
 func verifC11FileScan(n int) {
 	content := verifString("content", n, "a \n\r")
 	mem := &StringRuleList{ID: 3, RulesText: content}
-	fl := &FileRuleList{ID: 3, File: verifFile(content), buffer: make([]byte, 4)}
+	fl := verifNewFileList(3, verifFile(content), 4)
 	s1, s2 := mem.NewScanner(), fl.NewScanner()
 	for i := 0; i <= n; i++ {
 		a, b := s1.Scan(), s2.Scan()
